@@ -26,6 +26,7 @@ type Program struct {
 	typesPkgs map[string]*types.Package
 	typeTags  map[string]int
 	fnIDs     map[string]int
+	nameHints map[string]nameHints // reference-tree names of parameters and locals, per unit
 }
 
 type Obligation struct {
